@@ -12,7 +12,7 @@ import glob, json, os, random, re
 import vlib
 
 PROG = "flight"
-ALL_CLASSES = ["truncate", "length", "duplicate", "drop", "oddlist", "swap", "insert"]
+ALL_CLASSES = ["truncate", "length", "duplicate", "drop", "oddlist", "swap", "insert", "insertext"]
 IMPORT_CLASSES = ALL_CLASSES + ["versions"]   # C07 only: (record version, legacy_version) pairs
 ALL_DOC_CLASSES = ["missing", "size", "unknown", "wrongtype", "empty", "range"]
 # reasons that say "the machinery did not do what TLC asked", never a judgement about the library
